@@ -64,6 +64,12 @@ var preludeParts = []preludePart{
 (assert (forall ((a tq_Ref) (b tq_Ref)) (! (=> (= (tq_rkey a) (tq_rkey b)) (= a b)) :pattern ((tq_rkey a) (tq_rkey b)))))`},
 	{"tq_ikey ", `(declare-fun tq_ikey (Int Int) Int)
 (assert (forall ((a Int) (b Int) (c Int) (d Int)) (! (=> (= (tq_ikey a b) (tq_ikey c d)) (and (= a c) (= b d))) :pattern ((tq_ikey a b) (tq_ikey c d)))))`},
+	{"tq_in ", `(declare-fun tq_in (Int) Int)
+(assert (forall ((i Int)) (! (and (<= 0 (tq_in i)) (<= (tq_in i) 255)) :pattern ((tq_in i)))))`},
+	{"tq_isnil ", `(declare-fun tq_isnil (tq_Ref) Bool)`},
+	{"tq_tag ", `(declare-fun tq_tag (tq_Ref) Int)`},
+	{"tq_nilref", `(declare-fun tq_nilref () tq_Ref)
+(assert (tq_isnil tq_nilref))`},
 	{"tq_isobj ", `(declare-fun tq_isobj (tq_Ref Int) Bool)`},
 	{"tq_sameval ", `(declare-fun tq_sameval (tq_Ref Int) Bool)`},
 	{"tq_eps", `(declare-fun tq_eps () tq_Seq)`},
@@ -135,6 +141,37 @@ func newSolver(workDir string, timeout time.Duration) *Solver {
 func (e *Engine) smtText(hyps []*Term, goal *Term, produceModel bool) string {
 	var body bytes.Buffer
 	all := append(append([]*Term{}, hyps...), goal)
+	// facts about interface identities mentioned in the query
+	{
+		fv0 := map[string]string{}
+		FreeVars(all, fv0)
+		for round := 0; round < 3; round++ {
+			var add []*Term
+			for name := range fv0 {
+				if fs, ok := e.refFactsBy[name]; ok {
+					add = append(add, fs...)
+				}
+			}
+			n0 := len(fv0)
+			FreeVars(add, fv0)
+			if round == 2 || len(fv0) == n0 {
+				seen := map[*Term]bool{}
+				for _, h := range hyps {
+					seen[h] = true
+				}
+				for name := range fv0 {
+					for _, f := range e.refFactsBy[name] {
+						if !seen[f] {
+							seen[f] = true
+							hyps = append(hyps, f)
+						}
+					}
+				}
+				break
+			}
+		}
+		all = append(append([]*Term{}, hyps...), goal)
+	}
 	fv := map[string]string{}
 	FreeVars(append(append([]*Term{}, all...), e.extraTerms...), fv)
 	for _, name := range sortedKeys(fv) {
